@@ -767,6 +767,11 @@ type Treasure interface {
 	IsDeletedByChanged() bool
 	IsModifiedAtChanged() bool
 	IsModifiedByChanged() bool
+	// ResetChangeFlags clears every Is...Changed marker the setters have raised.
+	// The swamp's save function calls it, still under the treasure guard, once a save has
+	// been classified and processed, so that a later save of identical data is recognised
+	// as unchanged (StatusSame, no event) instead of being reported as a modification.
+	ResetChangeFlags(guardID guard.ID)
 
 	// -------------------------- BODY FUNCTIONS -------------------------- //
 	// System function are functions that are used by the system and should not be used by the Head of the Hydra
@@ -2252,6 +2257,21 @@ func (t *treasure) IsModifiedByChanged() bool {
 	t.mu.RLock()
 	defer t.mu.RUnlock()
 	return t.modifiedByChanged
+}
+
+func (t *treasure) ResetChangeFlags(guardID guard.ID) {
+	_ = t.Guard.CanExecute(guardID)
+	t.mu.Lock()
+	defer t.mu.Unlock()
+	t.expirationTimeChanged = false
+	t.contentChanged = false
+	t.contentTypeChanged = false
+	t.createdAtChanged = false
+	t.createdByChanged = false
+	t.deletedAtChanged = false
+	t.deletedByChanged = false
+	t.modifiedAtChanged = false
+	t.modifiedByChanged = false
 }
 
 func (t *treasure) IsContentTypeChanged() bool {
